@@ -379,6 +379,10 @@ func vfH_C10_dispatch() {
 					last = false
 				}
 			}
+			if last && id == 1 {
+				vfrt.Assert(peer.encoder.MaxDynamicTableSize() == v, "dispatch/header-table-size-applied-to-peer")
+				vfrt.Assert(r.encoder.MaxDynamicTableSize() == initialMaxHeaderTableSize, "dispatch/header-table-size-not-applied-to-own-direction")
+			}
 			if last && id == 4 {
 				vfrt.Assert(peer.initialWindowSize == v, "dispatch/initial-window-applied-to-peer")
 			}
